@@ -24,7 +24,7 @@ import (
 // PropDef says which obligations constitute a property (see DESIGN.md section 5).
 type PropDef struct {
 	ID     string
-	Kinds  []string // obligation kinds that belong to the property by default
+	Kinds  []string // obligation kinds that belong to the property by default; "kind@filter" overrides Funcs for that kind
 	Funcs  string   // "all", "exec" (execution-reachable), or a regexp over function names; applies to Kinds
 	Floor  int      // minimum number of claimed obligations (vacuity guard)
 	Unmech []string // steps of the argument that are not machine-checked
@@ -86,36 +86,41 @@ func loadLists(verifDir string) *CheckLists {
 	return cl
 }
 
-func propsOfKind(kind string) []string {
-	var out []string
-	for _, pd := range propDefs {
-		for _, k := range pd.Kinds {
-			if k == kind {
-				out = append(out, pd.ID)
-			}
-		}
-	}
-	return out
-}
 
-func funcMatches(p *Prog, pd *PropDef, fn *ssa.Function, re *regexp.Regexp) bool {
-	switch pd.Funcs {
+var filterRes = map[string]*regexp.Regexp{}
+
+func filterMatches(p *Prog, filter string, fn *ssa.Function) bool {
+	switch filter {
 	case "", "all":
 		return true
 	case "exec":
 		return p.ExecReach[fn]
 	}
+	re := filterRes[filter]
+	if re == nil {
+		re = regexp.MustCompile(filter)
+		filterRes[filter] = re
+	}
 	return re.MatchString(p.FuncName(fn))
+}
+
+// kindClaims: does the property claim obligations of this kind in this function by default?
+func kindClaims(p *Prog, pd *PropDef, kind string, fn *ssa.Function) bool {
+	for _, k := range pd.Kinds {
+		filter := pd.Funcs
+		if i := strings.Index(k, "@"); i >= 0 {
+			filter = k[i+1:]
+			k = k[:i]
+		}
+		if k == kind && filterMatches(p, filter, fn) {
+			return true
+		}
+	}
+	return false
 }
 
 // assignProps computes, for every obligation, the properties that claim it.
 func assignProps(p *Prog, encs []*Enc) {
-	res := map[string]*regexp.Regexp{}
-	for _, pd := range propDefs {
-		if pd.Funcs != "" && pd.Funcs != "all" && pd.Funcs != "exec" {
-			res[pd.ID] = regexp.MustCompile(pd.Funcs)
-		}
-	}
 	claimedIn := map[string]map[string]bool{} // function name -> props with primary claims in it
 	add := func(fn, prop string) {
 		if claimedIn[fn] == nil {
@@ -134,10 +139,8 @@ func assignProps(p *Prog, encs []*Enc) {
 			}
 			if len(ob.Props) == 0 {
 				for _, pd := range propDefs {
-					for _, k := range pd.Kinds {
-						if k == ob.Kind && funcMatches(p, pd, e.fn, res[pd.ID]) {
-							set[pd.ID] = true
-						}
+					if kindClaims(p, pd, ob.Kind, e.fn) {
+						set[pd.ID] = true
 					}
 				}
 			}
@@ -479,15 +482,14 @@ func evaluate(p *Prog, pd *PropDef, encs []*Enc, lists *CheckLists, tier string,
 }
 
 func propTouchesFunc(p *Prog, pd *PropDef, e *Enc) bool {
-	switch pd.Funcs {
-	case "", "all":
-		return true
-	case "exec":
-		return p.ExecReach[e.fn]
-	}
-	re := regexp.MustCompile(pd.Funcs)
-	if re.MatchString(e.name) {
-		return true
+	for _, k := range pd.Kinds {
+		filter := pd.Funcs
+		if i := strings.Index(k, "@"); i >= 0 {
+			filter = k[i+1:]
+		}
+		if filterMatches(p, filter, e.fn) {
+			return true
+		}
 	}
 	if e.fc != nil {
 		for _, cl := range append(append([]Clause{}, e.fc.Req...), e.fc.Ens...) {
